@@ -116,14 +116,14 @@ example :
 /-- Both linearization points are reachable: a `pPublish` step enqueues, a `cRelease` step dequeues. -/
 example :
     let s := run (init 2) [.send 0 7, .step 0, .step 0, .step 0]
-    let s' := run s [.step 0, .step 0, .recv 1, .step 1, .step 1, .step 1]
+    let s' := run s [.step 0, .step 0, .recv 1, .step 1, .step 1, .step 1, .step 1]
     Reachable 2 s ∧ s.thr 0 = .pPublish 7 1 ∧ abs s = [] ∧ abs (step s 0) = [7]
       ∧ s'.thr 1 = .cRelease 7 ∧ abs s' = [7] ∧ abs (step s' 1) = [] := by
   refine ⟨⟨_, rfl⟩, ?_⟩; decide
 
 /-- An empty ring with a `recv` at `cLen`: the `empty` witness fires. -/
 example :
-    let s := run (init 2) [.recv 0, .step 0]
+    let s := run (init 2) [.recv 0, .step 0, .step 0]
     s.thr 0 = .cLen ∧ abs s = [] ∧ (step s 0).thr 0 = .cEmptyUnlocked
       ∧ (step (step s 0) 0).thr 0 = .done .empty := by decide
 
